@@ -181,6 +181,92 @@ fn seq_spec(proto: &Proto, extra: usize, devs: usize, nonce_edge: bool) -> SeqSp
     SeqSpec { cfg, prefix: vec![], max_depth: 2 * n + 2 + extra, max_devs: devs, alphabet, judge: Arc::new(judge_all), goal }
 }
 
+
+/// Stateless mode: the caller chooses the nonces, so using a nonce twice under one key is the caller's mistake -
+/// but using it again AFTER the sending key of that direction was replaced (rekey_outgoing, or a manual rekey of
+/// one's own direction with a fresh key) is legitimate, and then the library must really have replaced the key.
+/// Every sequence up to the given depth over {write under nonce 0 / 1, rekey_outgoing, rekey_incoming, manual rekey
+/// of the initiator / responder key with a fresh key} in which no nonce is used twice without such a replacement,
+/// for each side, cipher and backend; invariant on the merged encryption log as everywhere else.
+fn stateless_rekey_sweep(ctx: &Ctx, depth: usize) {
+    let mut jobs = vec![];
+    for (c, b) in cipher_backends() {
+        for (pat, sides) in [("NN", vec![Side::I, Side::R]), ("N", vec![Side::I])] {
+            for s in sides {
+                jobs.push((c, b, pat, s));
+            }
+        }
+    }
+    // sequences as digit strings base 6
+    let total: usize = (1..=depth).map(|d| 6usize.pow(d as u32)).sum();
+    jobs.par_iter().for_each(|(c, b, pat, side)| {
+        let p = proto(pat, &[], DhAlg::X25519, *c, HashAlg::Sha256);
+        let mut cfg = c06_cfg(&p, &[], 9);
+        cfg.backend = [*b, *b];
+        let mut pre = sess::handshake_ops(&p, &[0, 0, 0, 0]);
+        pre.extend(sess::convert_ops(Mode::SS));
+        let mut ran = 0u64;
+        for d in 1..=depth {
+            for code in 0..6usize.pow(d as u32) {
+                let mut ops = pre.clone();
+                let mut used: Vec<u64> = vec![];
+                let mut fresh = 1u8;
+                let mut ok = true;
+                let mut x = code;
+                for step in 0..d {
+                    let a = x % 6;
+                    x /= 6;
+                    match a {
+                        0 | 1 => {
+                            let n = a as u64;
+                            if used.contains(&n) {
+                                ok = false;
+                                break;
+                            }
+                            used.push(n);
+                            ops.push(Op::SWrite { side: *side, nonce: n, plen: 1 + step, cap: Cap::Roomy });
+                        },
+                        2 => {
+                            ops.push(Op::RekeyOut { side: *side });
+                            used.clear();
+                        },
+                        3 => ops.push(Op::RekeyIn { side: *side }),
+                        4 => {
+                            ops.push(Op::RekeyInitManual { side: *side, k: fresh });
+                            fresh += 1;
+                            if side.is_init() {
+                                used.clear();
+                            }
+                        },
+                        _ => {
+                            ops.push(Op::RekeyRespManual { side: *side, k: fresh });
+                            fresh += 1;
+                            if !side.is_init() {
+                                used.clear();
+                            }
+                        },
+                    }
+                }
+                // sequences without two writes say nothing
+                if !ok || ops.iter().filter(|o| matches!(o, Op::SWrite { .. })).count() < 2 {
+                    continue;
+                }
+                let e = sess::run(&cfg, &ops);
+                ran += 1;
+                for (sig, dd) in key_nonce_violations(&e) {
+                    ctx.violation(format!("{sig} (stateless mode, nonce reused only after the sending key was replaced)"), dd, sess::case_json(&cfg, &ops));
+                }
+            }
+        }
+        ctx.add(&ctx.evaluations, ran);
+        ctx.add(&ctx.nontrivial, ran);
+        ctx.add(&ctx.traces, ran);
+        ctx.add(&ctx.transitions, ran * (depth as u64 + 6));
+        ctx.count("stateless_rekey_sequences", ran);
+    });
+    let _ = total;
+}
+
 fn common_t_written(e: &Exec, s: Side) -> usize {
     transport_wires(e, s).len()
 }
@@ -188,7 +274,7 @@ fn common_t_written(e: &Exec, s: Side) -> usize {
 pub fn run(tier: Tier) -> i32 {
     let ctx = Ctx::new("C06", tier, "model_checking");
     let quick = ctx.quick();
-    ctx.set_rule("E1: honest session (ScriptedRng ephemerals, RecordingCipher on both endpoints) with 0, 1 (and 2 on the base patterns) failing calls inserted at every point, then retried; E2: BFS over call sequences with scattered failures, conversion, transport writes/reads and rekeys. Invariant on every run: in the merged Cipher::encrypt log no (key, nonce) maps to two different (ad, plaintext); every message with an `e` token drew its ephemeral from the RNG during that write. non-trivial = at least two encryptions observed and at least one call failed");
+    ctx.set_rule("E1: honest session (ScriptedRng ephemerals, RecordingCipher on both endpoints) with 0, 1 (and 2 on the base patterns) failing calls inserted at every point, then retried; E2: BFS over call sequences with scattered failures, conversion, transport writes/reads and rekeys; stateless mode: every sequence (depth 4/5) of writes under nonces {0,1} and the five rekey calls in which a nonce returns only after the sending key was replaced. Invariant on every run: in the merged Cipher::encrypt log no (key, nonce) maps to two different (ad, plaintext); every message with an `e` token drew its ephemeral from the RNG during that write. non-trivial = at least two encryptions observed and at least one call failed");
     let mut names: Vec<(Proto, bool)> = patterns::all_protos_for_suite(DhAlg::X25519, CipherAlg::ChaChaPoly, HashAlg::Sha256).into_iter().map(|p| (p, false)).collect();
     for b in patterns::base_patterns() {
         names.push((Proto::new(&b, &[], DhAlg::X25519, CipherAlg::AesGcm, HashAlg::Blake2b).unwrap(), true));
@@ -198,7 +284,14 @@ pub fn run(tier: Tier) -> i32 {
             names.push((Proto::new(&b, &[0, last], DhAlg::X25519, CipherAlg::ChaChaPoly, HashAlg::Blake2s).unwrap(), true));
         }
     }
+    // the other DH function draws its ephemerals through its own code path: every 4th pattern in quick, all in thorough
+    for (k, b) in patterns::base_patterns().iter().enumerate() {
+        if !quick || k % 4 == 1 {
+            names.push((Proto::new(b, &[], DhAlg::P256, CipherAlg::ChaChaPoly, HashAlg::Blake2s).unwrap(), false));
+        }
+    }
     names.par_iter().for_each(|(p, b2)| e1_name(&ctx, p, *b2));
+    stateless_rekey_sweep(&ctx, if quick { 4 } else { 5 });
     ctx.count("e1_names", names.len() as u64);
     let (extra, devs) = if quick { (3, 2) } else { (5, 3) };
     let mut e2: Vec<Proto> = patterns::base_patterns().iter().map(|b| Proto::new(b, &[], DhAlg::X25519, CipherAlg::ChaChaPoly, HashAlg::Sha256).unwrap()).collect();
@@ -219,7 +312,7 @@ pub fn run(tier: Tier) -> i32 {
     let p0 = proto("XX", &[], DhAlg::X25519, CipherAlg::ChaChaPoly, HashAlg::Sha256);
     ctx.sample(json!({"name": p0.name, "ops": c07::honest(&p0), "observer": "RecordingCipher + ScriptedRng via Builder::with_resolver"}));
     ctx.assume("ScriptedRng mode only: with fixed_ephemeral_key_for_testing_only a retried `e` message re-derives the same keys by construction (outside the property)");
-    ctx.assume("caller-chosen nonces (stateless mode, verif_set_sending_nonce) and caller-chosen identical manual keys are the caller's responsibility and are not part of the alphabet");
+    ctx.assume("a caller who uses one nonce twice under one key in stateless mode, rewinds the sending nonce with the hook, or installs the same manual key twice, reuses (key, nonce) himself: not part of the alphabet; nonces reused only after the sending key was replaced are");
     *ctx.exhaustive.lock().unwrap() = Some(true);
     ctx.finish()
 }
